@@ -533,16 +533,24 @@ def restart_cases():
     def faulty_restart(w, k):
         """a kernel error at one of the first requests of start-up: the daemon either refuses to start (the constructor
         raises) or comes up with exactly its policies and an empty SAD"""
-        for j in (0, 1):
+        # (the start-up of this configuration makes 2 flush requests and 3 policy requests per protect entry)
+        n_startup = 2 + 3 * sum(len(c_['entries']) for c_ in expect)
+        for j, err in [(j_, K.ENOMEM) for j_ in range(n_startup)] + [(j_, K.EEXIST) for j_ in range(2, n_startup)]:
             w2 = w.fork()
             before = (len(w2.endpoints['A'].kernel.sad), len(w2.endpoints['A'].kernel.spd))
-            w2.endpoints['A'].kernel.fail_next(j, K.ENOMEM)
+            w2.endpoints['A'].kernel.fail_next(j, err)
             try:
                 w2.step(('restart', 'A'))
             except Exception:   # noqa - refusing to start is fine
                 out.append(('restart-fault:A:step%d:req%d' % (k, j), []))
                 continue
             probs = spd_problems(w2.endpoints['A'].kernel, expect)
+            # ... and it works with the configuration it was given (every entry, in the listed order)
+            got = [[e_.index for e_ in c_.protect] for c_ in w2.endpoints['A'].conf.ike_configurations.values()]
+            want = [[e_['index'] for e_ in c_['entries']] for c_ in expect]
+            if got != want:
+                probs.append(('configuration-changed', 'after a start-up with a kernel error the connections hold the protect entries %r, '
+                              'the configuration lists %r' % (got, want)))
             out.append(('restart-fault:A:step%d:req%d' % (k, j),
                         [('restart-fault:' + s2, m + ' [start-up with kernel error at request %d after step %d, leftovers %r]' % (j, k, before))
                          for s2, m in probs]))
